@@ -28,6 +28,7 @@ theorem replayOp_buildFile_some (path : Path) (cmp : Cmp) (fname : String) (args
     Impl.versionOk s fname = true ∧ (raised = false → Impl.outputMatches s path cmp cmpRes = true) ∧
     sf = false ∧ ¬ path ∈ s.sp.claimedFiles ∧ path ≠ s.sp.cacheFile ∧ s.sp.fs.get path = none ∧
     ∃ made s2, Spec.dirsToMake (Spec.visible s.sp) s.sp.cacheFile s.sp.inProg path.dropLast = .ok made ∧
+      made.any Path.tooLong = false ∧
       Impl.replayOps subs (replayS1 s path made raised) = some s2 ∧
       s' = (if raised then Impl.unwind s2 path made else Impl.adopt s2 path made) := by
   unfold Impl.replayOp at h
@@ -45,10 +46,12 @@ theorem replayOp_buildFile_some (path : Path) (cmp : Cmp) (fname : String) (args
   · cases h
   · rename_i made hdm
     simp only at h
+    split at h; · cases h
+    rename_i hlong
     split at h
     · cases h
     · rename_i s2 hs2
-      refine ⟨by simpa using hv, ?_, by simpa using hsf, ?_, ?_, ?_, made, s2, hdm, hs2, ?_⟩
+      refine ⟨by simpa using hv, ?_, by simpa using hsf, ?_, ?_, ?_, made, s2, hdm, by simpa using hlong, hs2, ?_⟩
       · intro hr; subst hr; simpa using hm
       · intro hc; apply hcl; simp [hc]
       · intro hc; apply hcl; simp [hc]
@@ -183,7 +186,7 @@ theorem replayOp_keeps : (o : Op) → (s s' : KSt) → s.WF → Impl.replayOp o 
       · cases h
     subst this; exact Keeps.refl _
   | .buildFile path cmp fname args kwargs subs ret cmpRes raised sf content, s, s', hwf, h => by
-    obtain ⟨_, _, _, hncl, _, _, made, s2, hdm, hs2, hs'⟩ := replayOp_buildFile_some _ _ _ _ _ _ _ _ _ _ _ _ _ h
+    obtain ⟨_, _, _, hncl, _, _, made, s2, hdm, _, hs2, hs'⟩ := replayOp_buildFile_some _ _ _ _ _ _ _ _ _ _ _ _ _ h
     have hwf1 : (replayS1 s path made raised).WF := by
       intro p hp
       simp only [replayS1, List.mem_cons] at hp ⊢
